@@ -36,6 +36,9 @@ fn random_line(r: &mut Rng) -> String {
         match r.below(8) {
             0 => format!("{}", r.range(-180, 180)),
             1 => format!("{}:{}:{}{}", r.range(0, 89), r.range(0, 59), r.range(0, 59), r.pick(&["", "N", "S", "E", "W"])),
+            // a negative sexagesimal value, also with zero degrees (less than a degree south or west)
+            6 => format!("-{}:{}:{}", r.pick(&[0, 0, 1, 12, 55]), r.range(0, 59), r.range(1, 59)),
+            7 => format!("-0:{}", r.range(1, 59)),
             2 => format!("{:.3}", r.uniform(-1000.0, 1000.0)),
             3 => format!("{:e}", r.uniform(-1.0, 1.0)),
             _ => format!("{:.6}", r.uniform(-90.0, 90.0)),
